@@ -482,16 +482,22 @@ fn verify_images(
             continue;
         }
         // deterministic cost model (replayable, unlike a wall-clock cut): one unit per image plus one
-        // per 64 KiB it holds; boundary images get extra head-room
+        // per 64 KiB it holds. Boundary images are always judged (two per step); the others share a
+        // budget that is released step by step, so that late steps of a long history (the COMMIT
+        // of a large transaction) are not starved by the early ones.
         let cost = 1 + img.files.iter().map(|(_, b)| b.len() as u64).sum::<u64>() / 65_536;
-        if ctx.image_cost + cost > ctx.max_image_cost_per_run + if is_boundary { ctx.max_image_cost_per_run / 2 } else { 0 } {
-            ctx.out.count("images_skipped_budget", 1);
-            continue;
-        }
-        ctx.image_cost += cost;
-        if ctx.images_verified >= ctx.max_images_per_run + if is_boundary { 300 } else { 0 } {
-            ctx.out.count("images_skipped_budget", 1);
-            continue;
+        if !is_boundary && ctx.crash.as_ref().and_then(|c| c.point.as_ref()).is_none() {
+            let planned = ctx.swarm.n_ops.max(1) as u64;
+            let released = ctx.max_image_cost_per_run * (step_idx as u64 + 1).min(planned) / planned;
+            if ctx.image_cost + cost > released {
+                ctx.out.count("images_skipped_budget", 1);
+                continue;
+            }
+            ctx.image_cost += cost;
+            if ctx.images_verified >= ctx.max_images_per_run {
+                ctx.out.count("images_skipped_budget", 1);
+                continue;
+            }
         }
         ctx.images_verified += 1;
         ctx.out.count("images_verified", 1);
